@@ -48,7 +48,7 @@ class ApiTranslator(FuncTranslator):
     MUTATORS = {'setstr'}
     EFFECT_METHODS = {'error'}
 
-    def __init__(self, func, refs, self_name='self', prims=()):
+    def __init__(self, func, refs, self_name='self', prims=(), select=None):
         import textwrap
         self.func = func
         self.refs = refs
@@ -57,6 +57,9 @@ class ApiTranslator(FuncTranslator):
         fd = ast.parse(textwrap.dedent(inspect.getsource(func))).body[0]
         if not isinstance(fd, ast.FunctionDef):
             raise Untranslatable(f'not a plain function: {ast.dump(fd)[:80]}')
+        if select is not None:
+            # a statement range, chosen by structure (never by line number); the rest of the body is not translated
+            fd.body = select(fd.body)
         self.fd = fd
         a = fd.args
         if a.vararg or a.kwonlyargs or a.posonlyargs:
@@ -156,6 +159,9 @@ class ApiTranslator(FuncTranslator):
                 raise Untranslatable('nested comprehension')
             pair = lambda: f'(XTuple [{self.expr(e.key)}; {self.expr(e.value)}])'  # noqa: E731
             return f'(XPrim "builtins.dict" [{self.comp(pair, e.generators[0])}])'
+        if isinstance(e, ast.Dict) and all(k is not None for k in e.keys):               # R3 (display)
+            items = glist([f'(XTuple [{self.expr(k)}; {self.expr(v)}])' for k, v in zip(e.keys, e.values)])
+            return f'(XPrim "builtins.dict" [(XList {items})])'
         if isinstance(e, ast.JoinedStr):                                                # R6
             parts = []
             for v in e.values:
@@ -313,6 +319,21 @@ class ApiTranslator(FuncTranslator):
 
 
 # ------------------------------------------------------------------------------------------------ specs
+def leading_self_assignments(body):
+    out = []
+    for st in body:
+        if isinstance(st, ast.Expr) and isinstance(st.value, ast.Constant) and isinstance(st.value.value, str) and not out:
+            continue
+        if isinstance(st, ast.Assign) and len(st.targets) == 1 and isinstance(st.targets[0], ast.Attribute) \
+                and isinstance(st.targets[0].value, ast.Name) and st.targets[0].value.id == 'self':
+            out.append(st)
+        else:
+            break
+    if not out:
+        raise Untranslatable('no leading self.<attr> = ... statements')
+    return out
+
+
 def spec_params():
     """C09: placeholder validation and binding in the compiler; the Connection wrappers"""
     import beanquery
@@ -326,6 +347,9 @@ def spec_params():
         ('compiler_placeholder', placeholder, 'beanquery.compiler.Compiler._placeholder (the handler _compile '
                                               'dispatches ast.Placeholder to)'),
         ('compiler_compile_fn', compiler.compile, 'beanquery.compiler.compile'),
+        ('connection_init_state', C.__init__, 'beanquery.Connection.__init__: the leading `self.<attr> = ...` statements '
+                                              '(the per-connection state; what follows attaches a data source)',
+         {'select': leading_self_assignments}),
         ('connection_execute', C.execute, 'beanquery.Connection.execute'),
         ('connection_cursor', C.cursor, 'beanquery.Connection.cursor'),
         ('connection_parse', C.parse, 'beanquery.Connection.parse'),
